@@ -332,6 +332,26 @@ fn check_faulted(
       }
     }
   }
+  // every dependency the final graph records resolves to an entry (module or
+  // error): independent of restarts, applies to every world
+  if g.graph_kind() == deno_graph::GraphKind::All {
+    for m in g.modules() {
+      for (text, dep) in m.dependencies() {
+        for r in [&dep.maybe_code, &dep.maybe_type] {
+          if let Some(t) = r.maybe_specifier() {
+            acc.count("dependencies_checked_settled");
+            if !settled(g, t) {
+              acc.violation(
+                format!("dependency-not-settled/{}/{}", t.scheme(), kinds_at(Some(t.as_str()))),
+                format!("{} imports {:?} -> {}, which has no entry in the graph", m.specifier(), text, t),
+                w(json!({"graph": graph_json(g)})),
+              );
+            }
+          }
+        }
+      }
+    }
+  }
   // every specifier the build asked the loader for is settled (a
   // cache-busting restart discards what the first pass loaded)
   // (module worlds only: a registry build may restart and discard what its
